@@ -172,4 +172,15 @@ Fixpoint rf_loop_pinned (fuel : nat) (w : wfun) (st : rstate) (pkt : bytes) (n :
 Definition read_from_pinned (w : wfun) (pkt : bytes) (s : script) : Res (Z * option N * list bytes) :=
   rf_loop_pinned (weight (Script s) + 1) w (Script s) pkt 0%Z None O [].   (* the zero pw.pkt of a fresh IOWriter *)
 
+(* ---- the small adapters ----
+   PacketWriterFunc(f).WritePacket(p) = f(p): the adapter is the function itself (call index k as in wfun).
+   NopCloser(w): WritePacket is w's, Close() returns nil.  IOWriter(w) = &packetWriter{NopCloser(w)};
+   IOWriteCloser(wc) = &packetWriter{wc}: Write / ReadFrom above go to wc.WritePacket, Close() is wc's own
+   (promoted through the embedded interface).  A closer is modelled by the error its Close returns. *)
+Definition packet_writer_func (f : wfun) : wfun := f.
+Definition nop_closer_write (w : wfun) : wfun := w.
+Definition nop_closer_close : option N := None.
+Definition io_writer_close : option N := nop_closer_close.
+Definition io_write_closer_close (close_result : option N) : option N := close_result.
+
 End PacketWriter.
